@@ -13,8 +13,8 @@ history of `tell_dqd` / `ask` / `tell` calls.  No bound on anything.
 * T10.2 `restart_iff` (+ one corollary per rule, `counters_step`, `tell_ok_iff`,
         `tell_err_state`)
 * T10.3 `history_counts`, `history_counts_ok`, `every_count`
-* T10.4 `tell_acts`, `restart_action`, `restart_action_es`, `restart_action_gae`,
-        `no_restart_no_action`, `err_no_reset`
+* T10.4 `tell_acts`, `restart_action`, `restart_recentres`, `restart_block_last`,
+        `restart_action_es`, `restart_action_gae`, `no_restart_no_action`, `err_no_reset`
 * T10.5 `handoff`, `gather_spec`, `lastAsk_history`, `handoff_history`
 * construction: `parseRule_spec`, `mkCfg_ok_iff`
 * `nonvacuous`, `nonvacuous_gae`
@@ -95,9 +95,35 @@ theorem gather_spec {vals : List ν} {idx : List Nat} {l : List ν} (h : gather 
 
 /-! ## the master description of an accepted `tell` -/
 
-/-- Everything an accepted `tell` does, as data: the three calls that hand the
-ranking over, then — exactly when the restart decision is positive — the
-restart block with an elite drawn from the archive. -/
+/-- the hand-off calls contain no restart call; the restart block contains nothing else -/
+theorem handoffActs_filter (cfg : Cfg) (t : TellIn ν) (np : Nat) (sorted : List ν) :
+    (handoffActs cfg t np sorted).filter Act.isRestart = [] := by
+  unfold handoffActs stepActs
+  split <;> rfl
+
+theorem handoffActs_no_restart (cfg : Cfg) (t : TellIn ν) (np : Nat) (sorted : List ν) :
+    ∀ a ∈ handoffActs cfg t np sorted, a.isRestart = false := by
+  intro a ha
+  cases hb : a.isRestart with
+  | false => rfl
+  | true =>
+    have : a ∈ (handoffActs cfg t np sorted).filter Act.isRestart := List.mem_filter.mpr ⟨ha, hb⟩
+    rw [handoffActs_filter] at this
+    cases this
+
+theorem restartActs_filter (kind : Kind) (e : Nat) :
+    (restartActs (ν := ν) kind e).filter Act.isRestart = restartActs kind e := by
+  cases kind <;> rfl
+
+theorem restartActs_all (kind : Kind) (e : Nat) : ∀ a ∈ restartActs (ν := ν) kind e, a.isRestart = true := by
+  intro a ha
+  have : a ∈ (restartActs (ν := ν) kind e).filter Act.isRestart := by rw [restartActs_filter]; exact ha
+  exact (List.mem_filter.mp this).2
+
+/-- Everything an accepted `tell` does, as data: the calls that hand the ranking
+over (with the gradient step of the arborescence emitter in between), then —
+exactly when the restart decision is positive — the restart block with an elite
+drawn from the archive, after which the search sits on that elite. -/
 theorem tell_acts {cfg : Cfg} {s s' : St} {t : TellIn ν} {o : Out ν}
     (h : tell cfg s t = (s', .ok o)) :
     t.statuses.length = t.sols.length ∧ (cfg.kind = .gae → s.hasJac = true) ∧
@@ -106,14 +132,11 @@ theorem tell_acts {cfg : Cfg} {s s' : St} {t : TellIn ν} {o : Out ν}
       o.restart = (t.stop sorted || checkRestart cfg.rule (s.itrs + 1) (newSols t.statuses)) ∧
       s'.itrs = s.itrs + 1 ∧ s'.hasJac = s.hasJac ∧ s'.lastAsk = s.lastAsk ∧
       ((o.restart = false ∧ s'.restarts = s.restarts ∧
-          o.acts = [.rank t.sols t.statuses,
-                    .optTell (t.rank t.sols t.statuses).1 (t.rank t.sols t.statuses).2 o.numParents,
-                    .checkStop sorted]) ∨
+          s'.point = pointAfterUpdate cfg o.numParents s.point ∧
+          o.acts = handoffActs cfg t o.numParents sorted) ∨
        (o.restart = true ∧ s'.restarts = s.restarts + 1 ∧
-          ∃ e, sampleElite t.arch t.rnd = some e ∧
-            o.acts = [.rank t.sols t.statuses,
-                      .optTell (t.rank t.sols t.statuses).1 (t.rank t.sols t.statuses).2 o.numParents,
-                      .checkStop sorted] ++ restartActs cfg.kind e)) := by
+          ∃ e, sampleElite t.arch t.rnd = some e ∧ s'.point = .elite e ∧
+            o.acts = handoffActs cfg t o.numParents sorted ++ restartActs cfg.kind e)) := by
   unfold tell at h
   split at h
   · cases h
@@ -141,14 +164,14 @@ theorem tell_acts {cfg : Cfg} {s s' : St} {t : TellIn ν} {o : Out ν}
     simp only [Prod.mk.injEq, Res.ok.injEq] at h
     obtain ⟨hs, ho⟩ := h
     subst hs ho
-    exact ⟨rfl, hdec.symm, rfl, rfl, rfl, Or.inr ⟨rfl, rfl, e, he, rfl⟩⟩
+    exact ⟨rfl, hdec.symm, rfl, rfl, rfl, Or.inr ⟨rfl, rfl, e, he, rfl, rfl⟩⟩
   · rename_i hdec
     simp only [Prod.mk.injEq, Res.ok.injEq] at h
     obtain ⟨hs, ho⟩ := h
     subst hs ho
     have hdec' : (t.stop sorted || checkRestart cfg.rule (s.itrs + 1) (newSols t.statuses)) = false := by
       simpa using hdec
-    exact ⟨rfl, hdec'.symm, rfl, rfl, rfl, Or.inl ⟨rfl, rfl, rfl⟩⟩
+    exact ⟨rfl, hdec'.symm, rfl, rfl, rfl, Or.inl ⟨rfl, rfl, rfl, rfl⟩⟩
 
 /-- the convergence bit the model consults is `TellIn.stopped` -/
 theorem stopped_eq {t : TellIn ν} {sorted : List ν}
@@ -304,53 +327,74 @@ theorem tell_err_state {cfg : Cfg} {s s' : St} {t : TellIn ν} {e : Err} {as : L
 
 /-! ## T10.4 — the restart action, as data -/
 
-/-- T10.4: on restart the emitter performs the restart block for an elite that
-is in the archive at that moment, and counts one restart; without restart it
-performs none of these calls and the restart counter stays. -/
+/-- T10.4: on restart the emitter performs, after the hand-off, the restart block
+for an elite that is in the archive at that moment — and nothing after it — counts
+one restart, and its search then sits on that elite; without restart it performs
+none of these calls and the restart counter stays. -/
 theorem restart_action {cfg : Cfg} {s s' : St} {t : TellIn ν} {o : Out ν}
     (h : tell cfg s t = (s', .ok o)) :
     (o.restart = true →
-      ∃ e ∈ t.arch, o.acts.drop 3 = restartActs cfg.kind e ∧
-        o.acts.filter Act.isRestart = restartActs cfg.kind e ∧ s'.restarts = s.restarts + 1) ∧
+      ∃ e ∈ t.arch, (∃ sorted, o.acts = handoffActs cfg t o.numParents sorted ++ restartActs cfg.kind e) ∧
+        o.acts.filter Act.isRestart = restartActs cfg.kind e ∧ s'.restarts = s.restarts + 1 ∧
+        s'.point = .elite e) ∧
     (o.restart = false →
-      o.acts.length = 3 ∧ o.acts.filter Act.isRestart = [] ∧ s'.restarts = s.restarts) := by
+      (∃ sorted, o.acts = handoffActs cfg t o.numParents sorted) ∧
+        o.acts.filter Act.isRestart = [] ∧ s'.restarts = s.restarts) := by
   obtain ⟨_, _, sorted, _, _, _, _, _, _, hc⟩ := tell_acts h
-  rcases hc with ⟨hr, hs, ha⟩ | ⟨hr, hs, e, he, ha⟩
-  · refine ⟨fun h' => (by rw [hr] at h'; cases h'), fun _ => ?_⟩
-    rw [ha]
-    exact ⟨rfl, rfl, hs⟩
-  · refine ⟨fun _ => ⟨e, sampleElite_mem he, ?_, ?_, hs⟩, fun h' => (by rw [hr] at h'; cases h')⟩
-    · rw [ha]; rfl
-    · rw [ha]
-      cases hk : cfg.kind <;> rfl
+  rcases hc with ⟨hr, hs, _, ha⟩ | ⟨hr, hs, e, he, hp, ha⟩
+  · refine ⟨fun h' => (by rw [hr] at h'; cases h'), fun _ => ⟨⟨sorted, ha⟩, ?_, hs⟩⟩
+    rw [ha, handoffActs_filter]
+  · refine ⟨fun _ => ⟨e, sampleElite_mem he, ⟨sorted, ha⟩, ?_, hs, hp⟩, fun h' => (by rw [hr] at h'; cases h')⟩
+    rw [ha, List.filter_append, handoffActs_filter, restartActs_filter, List.nil_append]
+
+/-- C10 "re-centring the optimizer on the solution of an elite currently in the
+archive", as a statement about the emitter's state after the call: whenever an
+accepted `tell` restarts, the search ends up exactly on an elite of the archive
+(no update is applied after the re-centring). -/
+theorem restart_recentres {cfg : Cfg} {s s' : St} {t : TellIn ν} {o : Out ν}
+    (h : tell cfg s t = (s', .ok o)) (hr : o.restart = true) :
+    ∃ e ∈ t.arch, s'.point = .elite e := by
+  obtain ⟨e, he, _, _, _, hp⟩ := (restart_action h).1 hr
+  exact ⟨e, he, hp⟩
+
+/-- the calls of an accepted `tell` split into hand-off calls followed by restart
+calls: no ranking, optimizer update, gradient step or convergence test happens
+after a reset -/
+theorem restart_block_last {cfg : Cfg} {s s' : St} {t : TellIn ν} {o : Out ν}
+    (h : tell cfg s t = (s', .ok o)) :
+    ∃ pre post, o.acts = pre ++ post ∧ (∀ a ∈ pre, a.isRestart = false) ∧
+      (∀ a ∈ post, a.isRestart = true) := by
+  obtain ⟨_, _, sorted, _, _, _, _, _, _, hc⟩ := tell_acts h
+  rcases hc with ⟨_, _, _, ha⟩ | ⟨_, _, e, _, _, ha⟩
+  · exact ⟨_, [], by rw [ha, List.append_nil], handoffActs_no_restart _ _ _ _, by simp⟩
+  · exact ⟨_, _, ha, handoffActs_no_restart _ _ _ _, restartActs_all _ _⟩
 
 /-- EvolutionStrategyEmitter: sample an elite, re-centre the optimizer on its
 solution, reset the ranker, count the restart — nothing else. -/
 theorem restart_action_es {cfg : Cfg} {s s' : St} {t : TellIn ν} {o : Out ν}
     (hk : cfg.kind = .es) (h : tell cfg s t = (s', .ok o)) (hr : o.restart = true) :
     ∃ e ∈ t.arch, o.acts.drop 3 = [.sampleElite, .optReset (.elite e), .rankerReset, .incRestarts] := by
-  obtain ⟨e, he, hd, _⟩ := (restart_action h).1 hr
-  exact ⟨e, he, by rw [hd, hk]; rfl⟩
+  obtain ⟨e, he, ⟨sorted, ha⟩, _⟩ := (restart_action h).1 hr
+  refine ⟨e, he, ?_⟩
+  rw [ha]
+  simp [handoffActs, stepActs, hk, restartActs]
 
-/-- GradientArborescenceEmitter: the solution point is re-centred on the elite,
+/-- GradientArborescenceEmitter: after the hand-off (which contains the gradient
+step when there are parents), the solution point is re-centred on the elite and
 the coefficient distribution on zero. -/
 theorem restart_action_gae {cfg : Cfg} {s s' : St} {t : TellIn ν} {o : Out ν}
     (hk : cfg.kind = .gae) (h : tell cfg s t = (s', .ok o)) (hr : o.restart = true) :
-    ∃ e ∈ t.arch, o.acts.drop 3 =
+    ∃ e ∈ t.arch, ∃ sorted, o.acts = handoffActs cfg t o.numParents sorted ++
       [.sampleElite, .gradReset (.elite e), .optReset .zero, .rankerReset, .incRestarts] := by
-  obtain ⟨e, he, hd, _⟩ := (restart_action h).1 hr
-  exact ⟨e, he, by rw [hd, hk]; rfl⟩
+  obtain ⟨e, he, ⟨sorted, ha⟩, _⟩ := (restart_action h).1 hr
+  exact ⟨e, he, sorted, by rw [ha, hk]; rfl⟩
 
 theorem no_restart_no_action {cfg : Cfg} {s s' : St} {t : TellIn ν} {o : Out ν}
     (h : tell cfg s t = (s', .ok o)) (hr : o.restart = false) :
     ∀ a ∈ o.acts, a.isRestart = false := by
-  have := ((restart_action h).2 hr).2.1
-  intro a ha
-  cases hb : a.isRestart with
-  | false => rfl
-  | true =>
-    have : a ∈ o.acts.filter Act.isRestart := List.mem_filter.mpr ⟨ha, hb⟩
-    simp_all
+  obtain ⟨⟨sorted, ha⟩, _⟩ := (restart_action h).2 hr
+  rw [ha]
+  exact handoffActs_no_restart _ _ _ _
 
 /-- a rejected call resets nothing (at most it has tried to sample an elite) -/
 theorem err_no_reset {cfg : Cfg} {s s' : St} {t : TellIn ν} {e : Err} {as : List (Act ν)}
@@ -378,7 +422,10 @@ theorem err_no_reset {cfg : Cfg} {s s' : St} {t : TellIn ν} {e : Err} {as : Lis
     · simp only [Prod.mk.injEq, Res.err.injEq] at h
       obtain ⟨_, _, ha⟩ := h
       subst ha
-      simp [Act.isRestart]
+      intro a hmem hr
+      rcases List.mem_append.mp hmem with hm | hm
+      · rw [handoffActs_no_restart _ _ _ _ a hm] at hr; cases hr
+      · simpa using hm
     · cases h
   · cases h
 
@@ -392,24 +439,18 @@ values in ranked order. When the caller tells the rows of the last `ask`
 theorem handoff {cfg : Cfg} {s s' : St} {t : TellIn ν} {o : Out ν} {rows : List Nat}
     (hproto : s.lastAsk = some rows) (htold : t.sols = rows)
     (h : tell cfg s t = (s', .ok o)) :
-    ∃ sorted, gather (t.rank rows t.statuses).2 (t.rank rows t.statuses).1 = some sorted ∧
-      o.acts.take 3 =
+    ∃ sorted rest, gather (t.rank rows t.statuses).2 (t.rank rows t.statuses).1 = some sorted ∧
+      o.acts =
         [.rank rows t.statuses,
-         .optTell (t.rank rows t.statuses).1 (t.rank rows t.statuses).2 (parentsSpec cfg t.statuses),
-         .checkStop sorted] ∧
-      (∀ a ∈ o.acts.drop 3, a.isRestart = true) ∧ s'.lastAsk = some rows := by
+         .optTell (t.rank rows t.statuses).1 (t.rank rows t.statuses).2 (parentsSpec cfg t.statuses)]
+        ++ stepActs cfg (parentsSpec cfg t.statuses) ++ [.checkStop sorted] ++ rest ∧
+      (∀ a ∈ rest, a.isRestart = true) ∧ s'.lastAsk = some rows := by
   obtain ⟨_, _, sorted, hg, hnp, _, _, _, hl, hc⟩ := tell_acts h
   subst htold
-  refine ⟨sorted, hg, ?_, ?_, by rw [hl, hproto]⟩
-  · rw [← numParents_eq_spec, ← hnp]
-    rcases hc with ⟨_, _, ha⟩ | ⟨_, _, e, _, ha⟩ <;> rw [ha] <;> rfl
-  · rcases hc with ⟨_, _, ha⟩ | ⟨_, _, e, _, ha⟩
-    · rw [ha]; simp
-    · rw [ha]
-      intro a hmem
-      have : a ∈ restartActs (ν := ν) cfg.kind e := by simpa using hmem
-      cases hk : cfg.kind <;> simp only [hk, restartActs, List.mem_cons, List.not_mem_nil, or_false] at this <;>
-        rcases this with rfl | rfl | rfl | rfl | rfl <;> rfl
+  rw [← numParents_eq_spec, ← hnp]
+  rcases hc with ⟨_, _, _, ha⟩ | ⟨_, _, e, _, _, ha⟩
+  · exact ⟨sorted, [], hg, by rw [ha, List.append_nil]; rfl, by simp, by rw [hl, hproto]⟩
+  · exact ⟨sorted, _, hg, by rw [ha]; rfl, restartActs_all _ _, by rw [hl, hproto]⟩
 
 /-! ## histories -/
 
@@ -638,9 +679,8 @@ theorem handoff_history (cfg : Cfg) (pre : List (Op ν)) (t : TellIn ν) (rows :
        .optTell (t.rank rows t.statuses).1 (t.rank rows t.statuses).2 (parentsSpec cfg t.statuses)] := by
   have hl : (runOps cfg init pre).1.lastAsk = some rows := by
     rw [lastAsk_history cfg init pre hok]; exact hlast
-  obtain ⟨sorted, _, h3, _⟩ := handoff hl htold h
-  have : o.acts.take 2 = (o.acts.take 3).take 2 := by simp [List.take_take]
-  rw [this, h3]; rfl
+  obtain ⟨sorted, rest, _, h3, _⟩ := handoff hl htold h
+  rw [h3]; rfl
 
 /-! ## construction -/
 
@@ -692,7 +732,7 @@ call accepted; four tells; restarts at tell 2 (rule), 3 (stop signal) and 4
 of the moment; the optimizer receives the ranker's answer. -/
 theorem nonvacuous :
     (∀ r ∈ (runOps exCfg init exOps).2, r.isErr = false) ∧
-    (runOps exCfg init exOps).1 = ⟨4, 3, false, some [10, 11, 12]⟩ ∧
+    (runOps exCfg init exOps).1 = ⟨4, 3, false, some [10, 11, 12], .elite 9⟩ ∧
     (runOps exCfg init exOps).2 =
       [.done,
        .ok ⟨2, false, [.rank [1, 2, 3] [0, 1, 2], .optTell [2, 0, 1] [10, 11, 12] 2, .checkStop [12, 10, 11]]⟩,
@@ -719,11 +759,11 @@ def exOpsGae : List (Op Nat) :=
 
 /-- the arborescence emitter, 'mu' selection, 'no_improvement', with the two rejections -/
 theorem nonvacuous_gae :
-    (runOps exCfgGae init exOpsGae).1 = ⟨2, 1, true, some [1, 2]⟩ ∧
+    (runOps exCfgGae init exOpsGae).1 = ⟨2, 1, true, some [1, 2], .elite 9⟩ ∧
     (runOps exCfgGae init exOpsGae).2 =
       [.err .runtime [], .done, .done, .err .value [],
-       .ok ⟨2, false, [.rank [1, 2] [2, 1], .optTell [1, 0] [3, 4] 2, .checkStop [4, 3]]⟩,
-       .ok ⟨2, true, [.rank [1, 2] [0, 0], .optTell [1, 0] [3, 4] 2, .checkStop [4, 3],
+       .ok ⟨2, false, [.rank [1, 2] [2, 1], .optTell [1, 0] [3, 4] 2, .gradStep, .checkStop [4, 3]]⟩,
+       .ok ⟨2, true, [.rank [1, 2] [0, 0], .optTell [1, 0] [3, 4] 2, .gradStep, .checkStop [4, 3],
                       .sampleElite, .gradReset (.elite 9), .optReset .zero, .rankerReset, .incRestarts]⟩] := by
   decide
 
